@@ -193,25 +193,25 @@ func runC04Verify(cfg *config) error {
 }
 
 type c04Case struct {
-	ID       int     `json:"id"`
-	Script   int     `json:"script"`
-	When     int     `json:"when"` // strace inject when=N; 0 = time-sampled SIGKILL
-	KillMs   int     `json:"kill_ms,omitempty"`
-	Killed   bool    `json:"killed"`
-	HasInit  bool    `json:"has_init"`
-	Root     string  `json:"root"`
-	Init     []sView `json:"init"`
+	ID       int      `json:"id"`
+	Script   int      `json:"script"`
+	When     int      `json:"when"` // strace inject when=N; 0 = time-sampled SIGKILL
+	KillMs   int      `json:"kill_ms,omitempty"`
+	Killed   bool     `json:"killed"`
+	HasInit  bool     `json:"has_init"`
+	Root     string   `json:"root"`
+	Init     []sView  `json:"init"`
 	Nodes    []string `json:"nodes"`
-	Ops      []sOp   `json:"ops"`
-	Acked    int     `json:"acked"`
-	ReopenOK bool    `json:"reopen_ok"`
-	Err      string  `json:"err,omitempty"`
-	RootAft  string  `json:"root_after"`
-	After    []sView `json:"after"`
-	Reopen2  bool    `json:"reopen2_same"`
-	KeySame  bool    `json:"key_same"`
-	OneMeta  bool    `json:"one_meta"`
-	Key      string  `json:"key"`
+	Ops      []sOp    `json:"ops"`
+	Acked    int      `json:"acked"`
+	ReopenOK bool     `json:"reopen_ok"`
+	Err      string   `json:"err,omitempty"`
+	RootAft  string   `json:"root_after"`
+	After    []sView  `json:"after"`
+	Reopen2  bool     `json:"reopen2_same"`
+	KeySame  bool     `json:"key_same"`
+	OneMeta  bool     `json:"one_meta"`
+	Key      string   `json:"key"`
 }
 
 func (c *c04Case) val() string {
